@@ -263,6 +263,16 @@ func (idx *HNSWIndex) Add(vector VectorNode) error {
 		idx.nextID++
 	}
 
+	// Re-adding an ID that is still soft-deleted (update = remove + add):
+	// purge the stale entry first, otherwise the new vector would stay hidden
+	// behind the tombstone and be dropped by the next Flush.
+	if idx.deletedNodes.Contains(id) {
+		if err := idx.flushLocked(); err != nil {
+			idx.mu.Unlock()
+			return err
+		}
+	}
+
 	// Update max level
 	if level > idx.maxLevel {
 		idx.maxLevel = level
@@ -351,6 +361,11 @@ func (idx *HNSWIndex) Flush() error {
 	idx.mu.Lock()
 	defer idx.mu.Unlock()
 
+	return idx.flushLocked()
+}
+
+// flushLocked is Flush without taking the lock; the caller must hold the write lock.
+func (idx *HNSWIndex) flushLocked() error {
 	// Quick exit if nothing to flush
 	deletedCount := int(idx.deletedNodes.GetCardinality())
 	if deletedCount == 0 {
